@@ -47,6 +47,7 @@ def main():
         if cfg["kind"] == "standard":
             obs = StandardObserver(em, model, kill_at_eval=cfg.get("kill_at_eval"))
             obs.kill_after_mid_ckpt = bool(cfg.get("kill_after_mid_ckpt"))
+            obs.kill_after_stale_ckpt = bool(cfg.get("kill_after_stale_ckpt"))
             obs.install()
             if cfg.get("fs_faults"):
                 from .observe import FsFaults
